@@ -13,7 +13,18 @@ import (
 
 var _ = math.Float64bits
 
-func out(s string) { println(s) }
+// out prints one trace line. A program that prints without end is stopped here, in both
+// worlds alike, so that runaway behaviour shows as a difference of traces and not as a time-out.
+var outLines, outLimit int
+
+func out(s string) {
+	outLines++
+	if outLimit > 0 && outLines > outLimit {
+		println("RUNAWAY: more trace lines than this program can print")
+		hardExit()
+	}
+	println(s)
+}
 
 func itoa(n int) string { return i64toa(int64(n)) }
 
@@ -175,6 +186,8 @@ package main
 
 import "github.com/gopherjs/gopherjs/js"
 
+func hardExit() { js.Global.Get("process").Call("exit", 3) }
+
 func argv(i int) string {
 	a := js.Global.Get("process").Get("argv")
 	if a.Length() > i+2 {
@@ -189,6 +202,8 @@ const GlueNative = `//go:build !js
 package main
 
 import "os"
+
+func hardExit() { os.Exit(3) }
 
 func argv(i int) string {
 	if len(os.Args) > i+1 {
